@@ -11,7 +11,9 @@ SmallHead == <<[k |-> "stag", n |-> "html", us |-> <<"<html>">>, sel |-> FALSE],
 CasesLag == {PCase(d, f, e) : d \in {Small, SmallHead}, f \in {F1, F2, F3, F9, F10, F12, F20}, e \in {"gzip", "none", "zstd"}}
 \* cases to replay on the real chain (the harness sweeps the cuts of the compressed stream)
 CasesReplayQ == {PCase(d, f, e) : d \in {A2, A3, A7, A9, A12, B4, B8, B9}, f \in {F1, F3, F6, F8, F9, F10, F11, F12, F19, F20}, e \in {"gzip", "deflate", "br", "zstd", "none"}}
+                \cup {PCase(d, f, e) : d \in {A2, B9}, f \in {F1, F12}, e \in {"GZIP", "Br"}}
 CasesReplayT == {PCase(d, f, e) : d \in DocsWell \cup DocsMessy, f \in FiltersAll, e \in {"gzip", "deflate", "br", "zstd", "identity"}}
+                \cup {PCase(d, f, e) : d \in {A2, A7, B9}, f \in {F1, F6, F12}, e \in {"GZIP", "Br"}}
 SpecCases == Init /\ [][FALSE]_vars
 Emit == PrintT(<<"REPLAY", ToJson(cs)>>)
 =============================================================================
